@@ -247,3 +247,21 @@ package smpp34
 //@ func ExtractDeliveryReceipt
 //@   props C18,C03
 //@   ensures [C18 fields] err == nil && d.ID == fieldAfter(s, "id:") && d.Sub == fieldAfter(s, "sub:") && d.Dlvrd == fieldAfter(s, "dlvrd:") && d.SubDate == fieldAfter(s, "submit date:") && d.DoneDate == fieldAfter(s, "done date:") && d.Stat == fieldAfter(s, "stat:") && d.Err == fieldAfter(s, "err:") && d.Text == fieldAfter(s, "text:")
+
+// ---------------------------------------------------------------- packet constructors (C10): a PDU built by a constructor
+// reports, in its encoded header, the command of its type and the sequence number it was given.
+//@ func NewEnquireLinkReqBytes
+//@   props C10
+//@   ensures [C10 image] result == cat(be32(16), be32(int(smpp.ENQUIRE_LINK)), be32(0), be32(int(seqID)))
+//@ func NewEnquireLinkRespBytes
+//@   props C10
+//@   ensures [C10 image] result == cat(be32(16), be32(int(smpp.ENQUIRE_LINK_RESP)), be32(0), be32(int(seqID)))
+//@ func NewUnBindRespBytes
+//@   props C10
+//@   ensures [C10 image] result == cat(be32(16), be32(int(smpp.UNBIND_RESP)), be32(0), be32(int(seqID)))
+//@ func NewUnBindBytes
+//@   props C10
+//@   ensures [C10 image] result == cat(be32(16), be32(int(smpp.UNBIND)), be32(0), be32(int(seqID)))
+//@ func NewDeliverySMRespBytes
+//@   props C10
+//@   ensures [C10 image] result == cat(be32(17), be32(int(smpp.DELIVER_SM_RESP)), be32(0), be32(int(seqID)), u8(0))
